@@ -99,6 +99,7 @@ def gen_case(rng: random.Random, cfg: str, kind: str) -> dict:
         "close_pending_how": rng.choice(["plain", "cancelled"]),
         "close_how": rng.choice(["plain", "cancelled-scope", "expired-deadline", "racing-send"]),
         "cancelled_sends": rng.choice([0, 0, 0, 0, 10, 30]),
+        "send_fds": rng.choice([0, 0, 0, 5, 70000, 400000]),
     }  # fmt: skip
 
 
@@ -345,6 +346,9 @@ def execute(case: dict) -> dict:
         if case.get("cancelled_sends"):
             await probe_cancelled_sends(conn, listener, case["cancelled_sends"])
 
+        if case.get("send_fds") and case["kind"] == "unix":
+            await probe_send_fds(conn, listener, case["send_fds"])
+
         for x in (c, s):
             try:
                 await x.aclose()
@@ -463,6 +467,56 @@ def execute(case: dict) -> dict:
             viol.append(("closed-stream-delivered-wrong-data", {"seen": bytes(seen).decode()}))
 
         await b.aclose()
+
+    async def probe_send_fds(conn, listener, size: int) -> None:  # noqa: ANN001
+        """UNIX streams: a message sent with send_fds() is part of the byte stream like any
+        other - it arrives completely, in order, together with the descriptor"""
+        a, b = await pair(conn, listener)
+        msg = pattern(5, 0, size)
+        got = bytearray()
+        fds: list = []
+        r_fd, w_fd = os.pipe()
+        try:
+            with anyio.fail_after(20):
+                async with create_task_group() as tg:
+
+                    async def reader() -> None:
+                        await anyio.sleep(0.02)  # let the writer run into a full buffer first
+                        data, received = await b.receive_fds(65536, 4)
+                        got.extend(data)
+                        fds.extend(received)
+                        try:
+                            while True:
+                                got.extend(await b.receive(65536))
+                        except EndOfStream:
+                            pass
+
+                    tg.start_soon(reader)
+                    await a.send_fds(msg, [r_fd])
+                    await a.send(b"<END>")
+                    await a.send_eof()
+
+            window("send_fds_probe")
+            if bytes(got) != msg + b"<END>":
+                viol.append(("send_fds-message-not-delivered-completely",
+                             {"sent": len(msg) + 5, "received": len(got),
+                              "first_diff": _first_diff(bytes(got), msg + b"<END>")}))  # fmt: skip
+            elif len(fds) != 1:
+                viol.append(("send_fds-descriptor-not-delivered", {"fds": len(fds)}))
+        except TimeoutError:
+            out["inconclusive"] = "send_fds probe timed out"
+        finally:
+            for fd in (r_fd, w_fd, *fds):
+                try:
+                    os.close(fd)
+                except OSError:
+                    pass
+
+            for x in (a, b):
+                try:
+                    await x.aclose()
+                except BaseException:  # noqa: BLE001
+                    pass
 
     async def probe_cancelled_sends(conn, listener, n: int) -> None:  # noqa: ANN001
         """the peer never reads; the writer fills the kernel buffers and then tries n more
@@ -647,6 +701,13 @@ def all_cases(tier: str, seed: int):  # noqa: ANN201
                 yield {"cfg": cfg, "kind": kind, "reader": reader, "sizes": [100, 70000],
                        "max_bytes": [65536], "stall": "none", "reverse": [500, 1], "eof": "send_eof",
                        "probe_closed": False, "probe_busy": False, "reverse_late": True}  # fmt: skip
+
+    # send_fds() with messages below and above the socket buffer size
+    for cfg in ("asyncio", "uvloop"):
+        for size in (1000, 200000, 1000000):
+            yield {"cfg": cfg, "kind": "unix", "reader": "connected", "sizes": [100],
+                   "max_bytes": [65536], "stall": "none", "reverse": [], "eof": "aclose",
+                   "probe_closed": False, "probe_busy": False, "send_fds": size}  # fmt: skip
 
     # sends that time out against a peer that does not read
     for cfg in ("asyncio", "uvloop"):
